@@ -8,4 +8,7 @@ type SchedSpec struct {
 	Picks   []int      `json:"picks,omitempty"` // recorded scheduling decisions (replay)
 	PickSeed uint64    `json:"pick_seed"`
 	MaxSteps int       `json:"max_steps,omitempty"`
+	// Callbacks is the number of OnPut callbacks registered on a deferred writer before the
+	// concurrent phase; each callback is a scheduling point (other tasks may run while it executes).
+	Callbacks int      `json:"callbacks,omitempty"`
 }
